@@ -1,6 +1,6 @@
 import extract
 import callgraph
-from rules import c01, c01i, recursion, bufbudget, common
+from rules import c01, c01i, c01p, recursion, bufbudget, common
 
 # entry points whose recursion is driven by user-shaped data (reader, writer, equal?, eval, strip)
 C01_RECURSION_ROOTS = ["sexp_read_op", "sexp_write_op", "sexp_equalp_op", "sexp_eval_op", "sexp_analyze",
@@ -28,6 +28,9 @@ def run(res, tier, replay=None):
     c01i.run_alloc(prog, res, floor=3, prims=prims, advisory_filter=c01.scope_filter())
     c01i.run_raise(prog, res, floor=2)
     c01i.witnesses(prog, res)
+    c01p.run(prog, res, floor=10, entry_names=prims, advisory=c01p.library_scope())
+    c01p.run_q(prog, res)
+    c01p.run_r(prog, res)
     if tier == "thorough":
         flt = c01.scope_filter()
         common.thorough_mutations(res, "C01", {
@@ -44,6 +47,9 @@ def run(res, tier, replay=None):
             "C01.k": lambda p, r: c01i.run_extents(p, r, floor=0, prims=c01.primitives(p), advisory_filter=flt),
             "C01.m": lambda p, r: c01i.run_alloc(p, r, floor=0, prims=c01.primitives(p), advisory_filter=flt),
             "C01.n": lambda p, r: c01i.run_raise(p, r, floor=0),
+            "C01.p": lambda p, r: c01p.run(p, r, floor=0, entry_names=c01.primitives(p), advisory=c01p.library_scope(p.root)),
+            "C01.q": lambda p, r: c01p.run_q(p, r),
+            "C01.r": lambda p, r: c01p.run_r(p, r, floor=0),
         })
     if tier == "thorough":
         # after the mutation witnesses: findings of other configurations must not count as their baseline
@@ -71,5 +77,10 @@ def run(res, tier, replay=None):
         "(m) an allocation size c0 + c1*count with a program-supplied count stays below 2^63 for the largest count the comparisons "
         "in force admit. (n) a VM case that stores the result of a C function which can return an exception object tests it before "
         "dispatching the next instruction (numeric entry points excluded: untested only after fixnum checks). "
-        "Not decided: pointer-walking loops, memcpy lengths, tables hung off the context (type table, signal handlers), "
+        "(p) every integer division or modulo by the unboxed value of an operand is dominated by a non-zero test; a function "
+        "that leaves the test to its callers makes the parameter zero-unsafe and every call site must guard, pass a non-zero "
+        "constant or hand the obligation up (SIGFPE kills the process). (q) no immediate constant (SEXP_FALSE, NULL ...) is passed "
+        "to a parameter that the callee, or a function it hands the value to, dereferences before testing it. (r) indexes into the "
+        "context's type table that carry the unboxed value of a parameter are dominated by 0 <= id < number of types. "
+        "Not decided: pointer-walking loops, memcpy lengths, the signal-handler table, "
         "the reader's label table (value invariant), reader token buffers beyond C01.h, stack growth sufficiency, OOM paths.")
